@@ -263,4 +263,4 @@ def m_c02_fstring_unclosed_nested_spec(f, rec):
     if not re.search(r":[^{}'\"]*\{", src):
         return False
     m = _cpy_msg(rec)
-    return "does not match opening parenthesis" in m or "was never closed" in m or "expecting '}'" in m or "nested too deeply" in m or "required for Constant" in m
+    return "single '}' is not allowed" in m or "does not match opening parenthesis" in m or "was never closed" in m or "expecting '}'" in m or "nested too deeply" in m or "required for Constant" in m
